@@ -17,6 +17,19 @@ unsnappable -> the record is marked off-lattice and rejected), rescales the reco
 over its common denominator and has TLC validate every record against the reference.
 Python computes no expected value; the face index it attaches to an output triangle is only a
 hint that TLC verifies (and replaces by a search over all faces when it does not hold).
+
+Audit extension (same reference, more of the quantified domain):
+  * further mesh classes (EXTRA_ORDER): open surfaces (box without lid, tent), an unmerged triangle soup, a mesh
+    with unreferenced vertices, a solid with an internal cavity, a body nested in the cavity of another (section
+    polygons nested two deep), four disjoint bodies, a convex solid with collinear boundary vertices (subdivided
+    cube, 48 faces), and textured meshes (uv carried through the slicer);
+  * capped slicing by TWO planes (kind "capm": the halves of the capped half of p1 by p2 add up to the exact
+    volume of that half; pieces of convex solids are watertight), plane pairs with a face subset;
+  * magnitudes: the same records for meshes scaled by 2^10 / 2^-6 and translated by up to 1e4 (the harness maps
+    the results back with the exact inverse, the reference sees the lattice mesh);
+  * call styles: lists / tuples / integer / float32 arrays for normals and origins, list / int32 face subsets,
+    engine=None (default engine), return_faces=False, process=True, unsorted heights with a duplicate;
+  * the Path returned by section / section_multiplane must consist of closed entities in general position.
 """
 import importlib
 import itertools
@@ -41,6 +54,9 @@ KCAP = 128          # capped slices (cubic terms in TLC) only where the crossing
 TOL = 1e-9
 ENGINE_MODULES = (("earcut", "mapbox_earcut"), ("triangle", "triangle"), ("manifold", "manifold3d"))
 EXTRA_NORMALS = [(1, 2, 0), (1, 1, 2), (2, -1, 1), (0, 1, -2)]
+# exact in binary floating point: power-of-two scales, integer translations (the results are mapped back exactly)
+MOVES = [(1024.0, (0, 0, 0)), (1.0 / 64.0, (0, 0, 0)), (1.0, (1000, -2000, 500)), (1.0, (10000, 10000, -10000)),
+         (1024.0, (3, 5, -7))]
 
 
 class OffLattice(Exception):
@@ -113,7 +129,52 @@ def seeds():
     for i in range(8):
         _wall(F, n, 4 + i, 4 + (i + 1) % 8, flip=True)
     out["uhole"] = (V, F)
+    out.update(extra_seeds(out["cube"]))
     return {k: ([list(v) for v in V], [list(f) for f in F]) for k, (V, F) in out.items()}
+
+
+def _box(cube, lo, hi, flip=False):
+    V, F = cube
+    Vb = [tuple(lo[k] + (v[k] // 2) * (hi[k] - lo[k]) for k in range(3)) for v in V]
+    return Vb, [tuple(reversed(f)) if flip else tuple(f) for f in F]
+
+
+def _cat(parts):
+    V, F = [], []
+    for Vp, Fp in parts:
+        F += [tuple(i + len(V) for i in f) for f in Fp]
+        V += list(Vp)
+    return V, F
+
+
+def extra_seeds(cube):
+    """Mesh classes beyond closed lattice solids with merged vertices (audit extension)."""
+    out = {}
+    V, F = cube
+    lid = [k for k, f in enumerate(F) if all(V[i][2] == 2 for i in f)]
+    out["openbox"] = (list(V), [f for k, f in enumerate(F) if k not in lid])
+    out["tent"] = ([(0, 0, 0), (2, 0, 0), (2, 2, 0), (0, 2, 0), (1, 1, 2)], [(0, 1, 4), (1, 2, 4), (2, 3, 4), (3, 0, 4)])
+    out["soup"] = ([V[i] for f in F for i in f], [(3 * k, 3 * k + 1, 3 * k + 2) for k in range(len(F))])
+    out["unref"] = ([(1, 1, 1)] + list(V) + [(1, 0, 2)], [tuple(i + 1 for i in f) for f in F])
+    out["cavity"] = _cat([_box(cube, (0, 0, 0), (3, 3, 3)), _box(cube, (1, 1, 1), (2, 2, 2), True)])
+    out["nested"] = _cat([_box(cube, (0, 0, 0), (5, 5, 5)), _box(cube, (1, 1, 1), (4, 4, 4), True),
+                          _box(cube, (2, 2, 2), (3, 3, 3))])
+    out["grid4"] = _cat([_box(cube, (x, y, 0), (x + 1, y + 1, 1)) for x in (0, 2) for y in (0, 2)])
+    # every face of the 2-cube split in four at its edge midpoints: convex, with collinear boundary vertices
+    SV, SF, idx = [], [], {}
+
+    def vid(p):
+        if p not in idx:
+            idx[p] = len(SV)
+            SV.append(p)
+        return idx[p]
+    for f in F:
+        a, b, c = (tuple(V[i]) for i in f)
+        ab, bc, ca = (tuple((p[k] + q[k]) // 2 for k in range(3)) for p, q in ((a, b), (b, c), (c, a)))
+        for t in ((a, ab, ca), (ab, b, bc), (ca, bc, c), (ab, bc, ca)):
+            SF.append(tuple(vid(p) for p in t))
+    out["subcube"] = (SV, SF)
+    return out
 
 
 def with_rotations(base):
@@ -129,7 +190,13 @@ def with_rotations(base):
 BASE_ORDER = ["tet", "cube", "octa", "lprism", "hole", "two", "uhole"]
 SEEDS = with_rotations(seeds())
 SEED_ORDER = ["%s/r%d" % (n, r) for n in BASE_ORDER for r in range(3)]
-NONCONVEX = ("lprism", "hole", "two", "uhole")      # only used to name a deviation; TLC decides convexity itself
+EXTRA_ORDER = ["openbox", "tent", "soup", "unref", "cavity", "nested", "grid4", "subcube"]
+SEED_ORDER += ["%s/r%d" % (n, r) for n in EXTRA_ORDER for r in range(3)]
+NOT_SOLID = ("openbox", "tent", "soup")             # not closed by edge counting (TLC checks the claim "solid")
+# only used to name a deviation; TLC decides convexity itself
+NONCONVEX = ("lprism", "hole", "two", "uhole", "cavity", "nested", "grid4")
+KCAP_SEED = {"nested": 32}                          # coordinates up to 5: cubic terms need a coarser grid
+UV_MAP = np.array([[0.25, 0.125, 0.0625], [0.0625, -0.125, 0.25]])      # texture coordinates of the textured variants
 
 
 def normals_all():
@@ -264,7 +331,7 @@ EMPTY_OUT = {"v": [], "f": [], "src": []}
 
 def base_record(kind, name, planes, sub, **desc):
     V, F = SEEDS[name]
-    return {"kind": kind, "seed": name, "V": V, "F": F, "solid": True, "K": 1, "off": "", "exc": "",
+    return {"kind": kind, "seed": name, "V": V, "F": F, "solid": name.split("/")[0] not in NOT_SOLID, "K": 1, "off": "", "exc": "",
             "planes": [{"n": list(n), "c2": int(c2)} for n, c2 in planes],
             "sub": list(range(len(F))) if sub is None else [int(s) for s in sub],
             "desc": dict(desc, seed=name)}
@@ -283,44 +350,124 @@ def guarded(rec, fn):
 
 
 # ---------------------------------------------------------------------- records
-def section_record(tm, mesh, name, n, c2, o, nn, sub, use_kw):
+class Ctx:
+    """How one (mesh, plane) pair is presented to trimesh: the mesh (possibly scaled / translated / textured), the
+    exact inverse of the move, and the call style (container / dtype of the plane arguments and of face subsets)."""
+
+    def __init__(self, mesh, move=None, style=0, tex=False):
+        self.mesh, self.move, self.style, self.tex = mesh, move, style, tex
+
+    def fwd(self, p):
+        p = np.asarray(p, dtype=np.float64)
+        if self.move is None:
+            return p
+        s, t = self.move
+        return (p + np.asarray(t, dtype=np.float64)) * s
+
+    def back(self, p):
+        p = np.asarray(p, dtype=np.float64)
+        if self.move is None or p.size == 0:
+            return p
+        s, t = self.move
+        return p / s - np.asarray(t, dtype=np.float64)
+
+    def length(self, h):
+        return h if self.move is None else h * self.move[0]
+
+    def arg(self, x, integral_ok=True):
+        """the (n, 3) or (3,) float64 array x in the container / dtype of this style (value preserving)"""
+        x = np.asarray(x, dtype=np.float64)
+        if self.style == 1:
+            return x.tolist()
+        if self.style == 2:
+            return tuple(map(tuple, x.tolist())) if x.ndim == 2 else tuple(x.tolist())
+        if self.style == 3:
+            if integral_ok and np.all(x == np.rint(x)) and np.abs(x).max() < 2 ** 31:
+                return x.astype(np.int64)
+            if np.all(x.astype(np.float32).astype(np.float64) == x):
+                return x.astype(np.float32)
+        return x
+
+    def faces(self, sub):
+        if sub is None:
+            return None
+        if self.style == 1:
+            return [int(i) for i in sub]
+        if self.style == 3:
+            return np.array(sub, dtype=np.int32)
+        return np.array(sub, dtype=np.int64)
+
+    def desc(self):
+        d = {"style": ("float64 arrays", "lists", "tuples", "int64/float32 arrays")[self.style]}
+        if self.move is not None:
+            d["scale"], d["translation"] = self.move[0], list(self.move[1])
+        if self.tex:
+            d["textured"] = True
+        return d
+
+
+def open_entities(path):
+    """number of entities of a returned path that are not closed curves (+1 if the path says it is not closed)"""
+    if path is None:
+        return 0
+    return int(sum(0 if e.closed else 1 for e in path.entities) + (0 if path.is_closed else 1))
+
+
+def section_record(tm, cx, name, n, c2, o, nn, sub, use_kw, faces_back=True):
     ix = tm.intersections
-    rec = base_record("section", name, [(n, c2)], sub, origin=[float(x) for x in o], normal=[float(x) for x in nn], api="mesh_plane+section")
-    rec.update(segs=[], fidx=[], haspath=True, psegs=[])
+    mesh = cx.mesh
+    rec = base_record("section", name, [(n, c2)], sub, origin=[float(x) for x in o], normal=[float(x) for x in nn],
+                      api="mesh_plane+section", return_faces=bool(faces_back), **cx.desc())
+    rec.update(segs=[], fidx=[], haspath=True, psegs=[], popen=0)
 
     def run(rec):
-        loc = None if sub is None else np.array(sub, dtype=np.int64)
-        if use_kw:
-            lines, fidx = ix.mesh_plane(mesh=mesh, plane_normal=nn, plane_origin=o, return_faces=True, local_faces=loc)
+        loc = cx.faces(sub)
+        an, ao = cx.arg(nn), cx.arg(cx.fwd(o))
+        if not faces_back:
+            lines = ix.mesh_plane(mesh, an, ao, local_faces=loc)
+            fidx = -np.ones(len(lines), dtype=np.int64)
+        elif use_kw:
+            lines, fidx = ix.mesh_plane(mesh=mesh, plane_normal=an, plane_origin=ao, return_faces=True, local_faces=loc)
         else:
-            lines, fidx = ix.mesh_plane(mesh, nn, o, True, loc)
-        path = mesh.section(plane_normal=nn, plane_origin=o) if sub is None else \
-            mesh.section(plane_normal=nn, plane_origin=o, local_faces=loc)
-        psegs = explode(path)
-        K, (a, b) = to_grid([np.asarray(lines).reshape((-1, 2, 3)), psegs])
-        rec.update(K=K, segs=a, psegs=b, fidx=[int(x) for x in np.asarray(fidx).ravel()])
+            lines, fidx = ix.mesh_plane(mesh, an, ao, True, loc)
+        path = mesh.section(plane_normal=an, plane_origin=ao) if sub is None else \
+            mesh.section(plane_normal=an, plane_origin=ao, local_faces=loc)
+        psegs = cx.back(explode(path))
+        K, (a, b) = to_grid([cx.back(np.asarray(lines).reshape((-1, 2, 3))), psegs])
+        rec.update(K=K, segs=a, psegs=b, fidx=[int(x) for x in np.asarray(fidx).ravel()], popen=open_entities(path))
         if len(rec["fidx"]) != len(a):
             raise OffLattice("face_index_length")
     return guarded(rec, run)
 
 
-def multiplane_records(tm, mesh, name, n, c2s, rs):
-    """One call of mesh_multiplane / section_multiplane for all offsets of one normal."""
+def multiplane_records(tm, cx, name, n, c2s, rs):
+    """One call of mesh_multiplane / section_multiplane for all offsets of one normal (heights in seeded order,
+    as an array or a list, sometimes with one height given twice)."""
     ix = tm.intersections
+    mesh = cx.mesh
+    c2s = list(c2s)
+    if rs.randint(2):
+        rs.shuffle(c2s)
+    twice = bool(rs.randint(2))
+    if twice:
+        c2s.append(c2s[0])
     c0 = c2s[rs.randint(len(c2s))]
     o = np.array(origin_for(n, c0, rs), dtype=np.float64) / 2.0
     nn = normal_variant(n, rs.randint(3))
     norm = math.sqrt(sum(x * x for x in n))
-    heights = np.array([(c - c0) / (2.0 * norm) for c in c2s])
+    heights = np.array([cx.length((c - c0) / (2.0 * norm)) for c in c2s])
+    if cx.style in (1, 2):
+        heights = heights.tolist()
     recs = []
     for c2 in c2s:
         r = base_record("section", name, [(n, c2)], None, origin=o.tolist(), normal=nn.tolist(),
-                        api="mesh_multiplane+section_multiplane", base_c2=int(c0))
-        r.update(segs=[], fidx=[], haspath=True, psegs=[])
+                        api="mesh_multiplane+section_multiplane", base_c2=int(c0), heights=len(c2s), height_given_twice=twice, **cx.desc())
+        r.update(segs=[], fidx=[], haspath=True, psegs=[], popen=0)
         recs.append(r)
     try:
-        lines, T, fidx = ix.mesh_multiplane(mesh, plane_origin=o, plane_normal=nn, heights=heights)
-        paths = mesh.section_multiplane(plane_origin=o, plane_normal=nn, heights=heights)
+        an, ao = cx.arg(nn), cx.arg(cx.fwd(o))
+        lines, T, fidx = ix.mesh_multiplane(mesh, plane_origin=ao, plane_normal=an, heights=heights)
+        paths = mesh.section_multiplane(plane_origin=ao, plane_normal=an, heights=heights)
         if not (len(lines) == len(T) == len(fidx) == len(paths) == len(c2s)):
             raise OffLattice("result_count")
     except OffLattice as e:
@@ -338,55 +485,70 @@ def multiplane_records(tm, mesh, name, n, c2s, rs):
             segs = lift(l2).reshape((-1, 2, 3)) if len(l2) else np.zeros((0, 2, 3))
             p = paths[k]
             psegs = explode(p, lifter(p.metadata["to_3D"])) if p is not None else np.zeros((0, 2, 3))
-            K, (a, b) = to_grid([segs, psegs])
-            rec.update(K=K, segs=a, psegs=b, fidx=[int(x) for x in np.asarray(fidx[k]).ravel()])
+            K, (a, b) = to_grid([cx.back(segs), cx.back(psegs)])
+            rec.update(K=K, segs=a, psegs=b, fidx=[int(x) for x in np.asarray(fidx[k]).ravel()], popen=open_entities(p))
             if len(rec["fidx"]) != len(a):
                 raise OffLattice("face_index_length")
         guarded(r, run)
     return recs
 
 
-def out_mesh(m):
+def out_mesh(m, cx=None):
     if m is None:
         return np.zeros((0, 3)), np.zeros((0, 3), dtype=np.int64)
-    return np.asarray(m.vertices, dtype=np.float64).reshape((-1, 3)), np.asarray(m.faces, dtype=np.int64).reshape((-1, 3))
+    v = np.asarray(m.vertices, dtype=np.float64).reshape((-1, 3))
+    return (v if cx is None else cx.back(v)), np.asarray(m.faces, dtype=np.int64).reshape((-1, 3))
 
 
-def slice_call(tm, mesh, nn, o, api, **kw):
+def slice_call(tm, cx, nn, o, api, **kw):
+    """nn, o: float64 arrays in lattice units, (3,) or (k, 3); engine 'default' means: do not pass one"""
+    if kw.get("engine") == "default":
+        kw["engine"] = None
+    an, ao = cx.arg(nn), cx.arg(cx.fwd(o))
     if api == "slice_plane":
-        return mesh.slice_plane(plane_origin=o, plane_normal=nn, **kw)
-    return tm.intersections.slice_mesh_plane(mesh, plane_normal=nn, plane_origin=o, **kw)
+        return cx.mesh.slice_plane(plane_origin=ao, plane_normal=an, **kw)
+    return tm.intersections.slice_mesh_plane(cx.mesh, plane_normal=an, plane_origin=ao, **kw)
 
 
-def slice_record(tm, mesh, Vf, Ff, name, n, c2, o, nn, sub, api):
-    rec = base_record("slice", name, [(n, c2)], sub, origin=[float(x) for x in o], normal=[float(x) for x in nn], api=api)
+def halves(Vf, Ff, cx, mp, mn):
+    pv, pf = out_mesh(mp, cx)
+    nv, nf = out_mesh(mn, cx)
+    return pv, pf, nv, nf
+
+
+def slice_record(tm, cx, Vf, Ff, name, n, c2, o, nn, sub, api, process=False):
+    rec = base_record("slice", name, [(n, c2)], sub, origin=[float(x) for x in o], normal=[float(x) for x in nn], api=api,
+                      process=bool(process), **cx.desc())
     rec.update(hasneg=True, pos=EMPTY_OUT, neg=EMPTY_OUT)
 
     def run(rec):
-        kw = {} if sub is None else {"face_index": np.array(sub, dtype=np.int64)}
-        pv, pf = out_mesh(slice_call(tm, mesh, nn, o, api, **kw))
-        nv, nf = out_mesh(slice_call(tm, mesh, -nn, o, api, **kw))
+        kw = {} if sub is None else {"face_index": cx.faces(sub)}
+        if process:
+            kw["process"] = True
+        pv, pf, nv, nf = halves(Vf, Ff, cx, slice_call(tm, cx, nn, o, api, **kw), slice_call(tm, cx, -nn, o, api, **kw))
         K, (a, b) = to_grid([pv, nv])
         rec.update(K=K, pos={"v": a, "f": pf.tolist(), "src": face_hints(Vf, Ff, pv, pf)},
                    neg={"v": b, "f": nf.tolist(), "src": face_hints(Vf, Ff, nv, nf)})
     return guarded(rec, run)
 
 
-def cap_record(tm, mesh, Vf, Ff, name, n, c2, o, nn, engine, api):
-    rec = base_record("cap", name, [(n, c2)], None, origin=[float(x) for x in o], normal=[float(x) for x in nn], api=api, engine=engine)
+def cap_record(tm, cx, Vf, Ff, name, n, c2, o, nn, engine, api, process=False):
+    rec = base_record("cap", name, [(n, c2)], None, origin=[float(x) for x in o], normal=[float(x) for x in nn], api=api,
+                      engine=engine, process=bool(process), **cx.desc())
     rec.update(pos=EMPTY_OUT, neg=EMPTY_OUT, note=True)
 
     def run(rec):
-        pv, pf = out_mesh(slice_call(tm, mesh, nn, o, api, cap=True, engine=engine))
-        nv, nf = out_mesh(slice_call(tm, mesh, -nn, o, api, cap=True, engine=engine))
+        kw = {"process": True} if process else {}
+        pv, pf, nv, nf = halves(Vf, Ff, cx, slice_call(tm, cx, nn, o, api, cap=True, engine=engine, **kw),
+                                slice_call(tm, cx, -nn, o, api, cap=True, engine=engine, **kw))
         K, (a, b) = to_grid([pv, nv])
         rec.update(K=K, pos={"v": a, "f": pf.tolist(), "src": face_hints(Vf, Ff, pv, pf)},
                    neg={"v": b, "f": nf.tolist(), "src": face_hints(Vf, Ff, nv, nf)})
     return guarded(rec, run)
 
 
-def pair_record(tm, mesh, Vf, Ff, name, p1, p2, rs):
-    """slice by two planes at once (the part on the positive side of both)"""
+def pair_record(tm, cx, Vf, Ff, name, p1, p2, rs, sub=None):
+    """slice by two planes at once (the part on the positive side of both), optionally of a face subset"""
     (n1, c1), (n2, c2) = p1, p2
     o1 = np.array(origin_for(n1, c1, rs), dtype=np.float64) / 2.0
     o2 = np.array(origin_for(n2, c2, rs), dtype=np.float64) / 2.0
@@ -394,11 +556,12 @@ def pair_record(tm, mesh, Vf, Ff, name, p1, p2, rs):
     nn = np.array([normal_variant(n1, v), normal_variant(n2, v)])
     oo = np.array([o1, o2])
     api = ("slice_plane", "slice_mesh_plane")[rs.randint(2)]
-    rec = base_record("slice", name, [p1, p2], None, origin=oo.tolist(), normal=nn.tolist(), api=api)
+    rec = base_record("slice", name, [p1, p2], sub, origin=oo.tolist(), normal=nn.tolist(), api=api, **cx.desc())
     rec.update(hasneg=False, pos=EMPTY_OUT, neg=EMPTY_OUT)
 
     def run(rec):
-        pv, pf = out_mesh(slice_call(tm, mesh, nn, oo, api))
+        kw = {} if sub is None else {"face_index": cx.faces(sub)}
+        pv, pf = out_mesh(slice_call(tm, cx, nn, oo, api, **kw), cx)
         try:
             K, (a,) = to_grid([pv], DMAX_PAIR)
         except OffLattice as e:
@@ -411,7 +574,52 @@ def pair_record(tm, mesh, Vf, Ff, name, p1, p2, rs):
     return guarded(rec, run)
 
 
+def capm_record(tm, cx, Vf, Ff, name, p1, p2, engine, rs):
+    """capped slice by two planes: the two halves (p2 and its opposite) of the capped half of p1"""
+    (n1, c1), (n2, c2) = p1, p2
+    o1 = np.array(origin_for(n1, c1, rs), dtype=np.float64) / 2.0
+    o2 = np.array(origin_for(n2, c2, rs), dtype=np.float64) / 2.0
+    v = rs.randint(3)
+    nn = np.array([normal_variant(n1, v), normal_variant(n2, v)])
+    nneg = np.array([nn[0], -nn[1]])
+    oo = np.array([o1, o2])
+    api = ("slice_plane", "slice_mesh_plane")[rs.randint(2)]
+    rec = base_record("capm", name, [p1, p2], None, origin=oo.tolist(), normal=nn.tolist(), api=api, engine=engine, **cx.desc())
+    rec.update(pos=EMPTY_OUT, neg=EMPTY_OUT)
+
+    def run(rec):
+        pv, pf, nv, nf = halves(Vf, Ff, cx, slice_call(tm, cx, nn, oo, api, cap=True, engine=engine),
+                                slice_call(tm, cx, nneg, oo, api, cap=True, engine=engine))
+        try:
+            K, (a, b) = to_grid([pv, nv], DMAX_PAIR)
+        except OffLattice as e:
+            if str(e) not in ("denominator", "residual"):
+                raise
+            K = KMAX + 1
+        if K > kcap_for(name.split("/")[0]):
+            # the second plane also cuts the diagonals and cap triangles the first cut introduced, so the result can
+            # need a finer grid than the exact clip polygons (the enumeration filter): not judged, counted
+            rec["skip"] = True
+            return
+        rec.update(K=K, pos={"v": a, "f": pf.tolist(), "src": face_hints(Vf, Ff, pv, pf)},
+                   neg={"v": b, "f": nf.tolist(), "src": face_hints(Vf, Ff, nv, nf)})
+    return guarded(rec, run)
+
+
 # ----------------------------------------------------------------------- worker
+def _mesh_for(tm, cache, name, move, tex):
+    key = (name, move, tex)
+    if key not in cache:
+        V, F = SEEDS[name]
+        Vf, Ff = np.array(V, dtype=np.float64), np.array(F, dtype=np.int64)
+        Vm = Vf.copy() if move is None else (Vf + np.array(move[1], dtype=np.float64)) * move[0]
+        kw = {}
+        if tex:
+            kw["visual"] = tm.visual.TextureVisuals(uv=Vf @ UV_MAP.T)
+        cache[key] = (tm.Trimesh(vertices=Vm, faces=Ff.copy(), process=False, **kw), Vf, Ff)
+    return cache[key]
+
+
 def _chunk(items):
     tm = import_trimesh()
     out = []
@@ -419,41 +627,47 @@ def _chunk(items):
     for it in items:
         kind, name, wid = it[0], it[1], it[2]
         rs = np.random.RandomState((seed() * 7919 + wid * 104729 + 17) % (2 ** 31 - 1))
-        if name not in meshes:
-            V, F = SEEDS[name]
-            Vf, Ff = np.array(V, dtype=np.float64), np.array(F, dtype=np.int64)
-            meshes[name] = (tm.Trimesh(vertices=Vf.copy(), faces=Ff.copy(), process=False), Vf, Ff)
-        mesh, Vf, Ff = meshes[name]
+        opt = it[-1] if isinstance(it[-1], dict) else {}
+        move = opt.get("move")
+        mesh, Vf, Ff = _mesh_for(tm, meshes, name, move, bool(opt.get("tex")))
+        cx = Ctx(mesh, move, rs.randint(4), bool(opt.get("tex")))
         if kind == "plane":
-            _, _, _, n, c2, engines, want_slice, want_sub = it
+            _, _, _, n, c2, engines, want_slice, want_sub = it[:8]
             o = np.array(origin_for(n, c2, rs), dtype=np.float64) / 2.0
             nn = normal_variant(n, rs.randint(3))
             api = ("slice_plane", "slice_mesh_plane")[rs.randint(2)]
-            out.append(section_record(tm, mesh, name, n, c2, o, nn, None, bool(rs.randint(2))))
+            out.append(section_record(tm, cx, name, n, c2, o, nn, None, bool(rs.randint(2)), rs.randint(4) > 0))
             if want_slice:
-                out.append(slice_record(tm, mesh, Vf, Ff, name, n, c2, o, nn, None, api))
+                out.append(slice_record(tm, cx, Vf, Ff, name, n, c2, o, nn, None, api, rs.randint(4) == 0))
                 for eng in engines:
-                    out.append(cap_record(tm, mesh, Vf, Ff, name, n, c2, o, nn, eng, api))
+                    out.append(cap_record(tm, cx, Vf, Ff, name, n, c2, o, nn, eng, api, rs.randint(4) == 0))
             if want_sub:
                 nf = len(Ff)
                 sub = sorted(rs.choice(nf, size=max(1, rs.randint(nf // 3, nf)), replace=False).tolist())
                 if rs.randint(2):
                     rs.shuffle(sub)
-                out.append(section_record(tm, mesh, name, n, c2, o, nn, sub, True))
+                out.append(section_record(tm, cx, name, n, c2, o, nn, sub, True))
                 if want_slice:
-                    out.append(slice_record(tm, mesh, Vf, Ff, name, n, c2, o, nn, sub, api))
+                    out.append(slice_record(tm, cx, Vf, Ff, name, n, c2, o, nn, sub, api))
         elif kind == "capsweep":
-            _, _, _, n, c2, eng = it
+            _, _, _, n, c2, eng = it[:6]
             o = np.array(origin_for(n, c2, rs), dtype=np.float64) / 2.0
             nn = normal_variant(n, rs.randint(3))
             api = ("slice_plane", "slice_mesh_plane")[rs.randint(2)]
-            out.append(cap_record(tm, mesh, Vf, Ff, name, n, c2, o, nn, eng, api))
+            out.append(cap_record(tm, cx, Vf, Ff, name, n, c2, o, nn, eng, api))
         elif kind == "multi":
-            _, _, _, n, c2s = it
-            out.extend(multiplane_records(tm, mesh, name, n, c2s, rs))
+            _, _, _, n, c2s = it[:5]
+            out.extend(multiplane_records(tm, cx, name, n, c2s, rs))
         elif kind == "pair":
-            _, _, _, p1, p2 = it
-            out.append(pair_record(tm, mesh, Vf, Ff, name, p1, p2, rs))
+            _, _, _, p1, p2, want_sub = it[:6]
+            sub = None
+            if want_sub:
+                nf = len(Ff)
+                sub = rs.choice(nf, size=max(1, rs.randint(nf // 3, nf)), replace=False).tolist()
+            out.append(pair_record(tm, cx, Vf, Ff, name, p1, p2, rs, sub))
+        elif kind == "capm":
+            _, _, _, p1, p2, eng = it[:6]
+            out.append(capm_record(tm, cx, Vf, Ff, name, p1, p2, eng, rs))
     return out
 
 
@@ -489,6 +703,47 @@ def sign_patterns(name, n, c2):
     return {(s[a], s[b], s[c]) for a, b, c in F}
 
 
+def kcap_for(base):
+    return KCAP_SEED.get(base, KCAP)
+
+
+def pair_facts(name, p1, p2):
+    """Exact facts about cutting seed `name` by p1 and then p2 (Fractions; enumeration filter and the predicate of a
+    known finding only, never an expected value): the lcm K of the denominators of all corner points of the clipped
+    faces, whether the pair is in general position (no vertex on p1, no vertex of the half of p1 - vertices
+    kept and crossing points - on p2), and whether p2 cuts the half of p1 (both pieces non-empty)."""
+    V, F = SEEDS[name]
+
+    def side(pl, p):
+        n, c2 = pl
+        return 2 * sum(n[k] * p[k] for k in range(3)) - c2
+
+    def clip(poly, pl):
+        out = []
+        s = [side(pl, p) for p in poly]
+        for k in range(len(poly)):
+            k2 = (k + 1) % len(poly)
+            if s[k] >= 0:
+                out.append(poly[k])
+            if (s[k] > 0 and s[k2] < 0) or (s[k] < 0 and s[k2] > 0):
+                t = Fraction(s[k]) / (s[k] - s[k2])
+                out.append(tuple(poly[k][j] + t * (poly[k2][j] - poly[k][j]) for j in range(3)))
+        return out
+    K = 1
+    general = all(side(p1, v) != 0 for v in V)
+    lo = hi = 0
+    for f in F:
+        h1 = clip([tuple(Fraction(x) for x in V[i]) for i in f], p1)
+        if any(side(p2, p) == 0 for p in h1):
+            general = False
+        lo, hi = min([lo] + [side(p2, p) for p in h1]), max([hi] + [side(p2, p) for p in h1])
+        for q in (p2, (tuple(-x for x in p2[0]), -p2[1])):
+            for p in clip(h1, q):
+                for x in p:
+                    K = K * x.denominator // math.gcd(K, x.denominator)
+    return K, general, lo < 0 < hi
+
+
 def build_work(tier, engines, rs):
     """quick: every (mesh, plane) pair once, in one of the three presentations of the seed (rotating), one
     seeded origin / normal scaling / api per pair; thorough: every presentation, each twice (once for the
@@ -498,55 +753,117 @@ def build_work(tier, engines, rs):
     npairs = 0
     nocap = {}
     toofine = 0
-    for bi, base in enumerate(BASE_ORDER):
+    thorough = tier == "thorough"
+    rot_eng = list(engines) + (["default"] if engines else [])
+    for bi, base in enumerate(BASE_ORDER + EXTRA_ORDER):
+        extra = base in EXTRA_ORDER
         V, F = SEEDS[base + "/r0"]
         planes = []
-        for ni, n in enumerate(normals_for(base, tier)):
+        normals = normals_all() if extra else normals_for(base, tier)
+        for ni, n in enumerate(normals):
             # planes whose crossing points need a grid finer than TLC's 32-bit integers carry are not enumerated
             c2s = [c2 for c2 in offsets(V, n) if k_plane(base + "/r0", n, c2) <= KMAX]
             toofine += len(offsets(V, n)) - len(c2s)
             for c2 in c2s:
                 planes.append((n, c2))
             # parallel sections through mesh_multiplane, one call per normal covering every offset
-            # (quick: every second normal per seed, alternating between seeds)
-            if tier != "thorough" and (ni + bi) % 2:
+            # (quick: every second normal per seed, alternating between seeds; every sixth for the extra seeds)
+            if not thorough and ((ni + bi) % 2 or (extra and (ni + bi) % 6)):
                 continue
-            for r in (range(3) if tier == "thorough" else [(len(work) + bi) % 3]):
+            if thorough and extra and (ni + bi) % 2:
+                continue
+            for r in (range(3) if thorough and not extra else [(len(work) + bi) % 3]):
                 work.append(("multi", "%s/r%d" % (base, r), wid, n, c2s))
                 wid += 1
+        if extra:
+            # the further mesh classes: a seeded sample of their planes in quick (the planes through vertices, along
+            # edges and faces are the majority of the lattice planes), every plane in one presentation in thorough
+            pick = sorted(rs.choice(len(planes), size=min(len(planes), 10 ** 6 if thorough else 44), replace=False).tolist())
+            planes = [planes[k] for k in pick]
         for k, (n, c2) in enumerate(planes):
-            patterns |= sign_patterns(base + "/r0", n, c2)
+            if not extra:
+                patterns |= sign_patterns(base + "/r0", n, c2)
             npairs += 1
             want_slice = positive_rep(n)
-            # every engine on every pair, except in quick on every second pair of a convex seed (one engine, rotating):
-            # caps with holes, several loops or pinched loops only arise on the non-convex seeds
-            full = tier == "thorough" or base in NONCONVEX or k % 2 == 0 or not engines
-            eng = list(engines) if full else [engines[(k // 2) % len(engines)]]
-            if k_plane(base + "/r0", n, c2) > KCAP:
-                eng = []
-                if want_slice:
+            # every engine on every pair, except in quick on every second pair of a convex seed (one engine, rotating;
+            # the rotation includes "no engine passed"): caps with holes, several loops or pinched loops only arise on
+            # the non-convex seeds
+            full = (thorough or base in NONCONVEX or k % 2 == 0 or not engines) and not extra
+            eng = list(engines) if full else [rot_eng[(k // 2) % len(rot_eng)]] if rot_eng else []
+            if full and engines and k % 4 == 1:
+                eng.append("default")
+            if k_plane(base + "/r0", n, c2) > kcap_for(base) or base in NOT_SOLID:
+                # (capping an open surface or a soup: nothing is stated)
+                if eng and want_slice and base not in NOT_SOLID:
                     nocap[base + str(list(n))] = nocap.get(base + str(list(n)), 0) + 1
-            nrep = 1 if base == "uhole" else 2          # the 48-face seed is the most expensive one to validate
-            reps = [(r, j) for r in range(3) for j in range(nrep)] if tier == "thorough" else [((k + bi) % 3, 0)]
+                eng = []
+            nrep = 1 if base == "uhole" or extra else 2          # the 48-face seed is the most expensive one to validate
+            reps = [(r, j) for r in (range(3) if not extra else [(k + bi) % 3]) for j in range(nrep)] if thorough \
+                else [((k + bi) % 3, 0)]
             for r, j in reps:
                 want_sub = ((k + j) % 3) == 0
                 work.append(("plane", "%s/r%d" % (base, r), wid, n, c2, eng, want_slice, want_sub))
                 wid += 1
             # capping a non-convex solid through a vertex pinches the section polygon and the outcome then
             # depends on rounding noise: more origins on the same plane, normal scalings and engines
-            if eng and base in NONCONVEX and (0, 0, 0) in sign_patterns_v(base + "/r0", n, c2):
-                for q in range((15 if base == "uhole" else 40) if tier == "thorough" else 2):
+            if eng and base in NONCONVEX and not extra and (0, 0, 0) in sign_patterns_v(base + "/r0", n, c2):
+                for q in range((15 if base == "uhole" else 40) if thorough else 2):
                     work.append(("capsweep", "%s/r%d" % (base, (k + q) % 3), wid, n, c2, eng[(k + q) % len(eng)]))
                     wid += 1
-        # plane pairs for multi-plane slicing: normals from {-1,0,1}^3
+        # plane pairs for multi-plane slicing: normals from {-1,0,1}^3; every third pair with a face subset
         simple = [(n, c2) for n, c2 in planes if max(abs(x) for x in n) == 1]
-        for q in range(600 if tier == "thorough" else 60):
+        for q in range((600 if not extra else 150) if thorough else (60 if not extra else 12)):
             p1 = simple[rs.randint(len(simple))]
             p2 = simple[rs.randint(len(simple))]
             if p1[0] == p2[0] or p1[0] == tuple(-x for x in p2[0]):
                 continue
-            work.append(("pair", "%s/r%d" % (base, q % 3), wid, p1, p2))
+            work.append(("pair", "%s/r%d" % (base, q % 3), wid, p1, p2, q % 3 == 1))
             wid += 1
+        # capped slicing by two planes (only where the exact result lives on a grid coarse enough for cubic terms)
+        if engines and base not in NOT_SOLID and base != "uhole":
+            want = (400 if thorough else 70) if base in ("tet", "cube", "octa", "subcube") else (150 if thorough else 24)
+            got = tries = 0
+            while got < want and tries < 40 * want:
+                tries += 1
+                p1 = simple[rs.randint(len(simple))]
+                p2 = simple[rs.randint(len(simple))]
+                if p1[0] == p2[0] or p1[0] == tuple(-x for x in p2[0]):
+                    continue
+                kk, _, cutting = pair_facts(base + "/r0", p1, p2)
+                # three of four pairs cut the solid twice; the rest has an empty piece or a plane that only touches
+                if kk > kcap_for(base) or (not cutting and got % 4 != 3):
+                    continue
+                work.append(("capm", "%s/r%d" % (base, got % 3), wid, p1, p2, rot_eng[(got + tries) % len(rot_eng)]))
+                wid += 1
+                got += 1
+        if extra:
+            continue
+        # magnitudes: the same pairs for a scaled / translated copy of the seed; textured copies of the seed
+        pick = rs.choice(len(planes), size=min(len(planes), 200 if thorough else 30), replace=False).tolist()
+        for q, k in enumerate(pick):
+            n, c2 = planes[k]
+            if not positive_rep(n):
+                n, c2 = tuple(-x for x in n), -c2
+            eng = [rot_eng[q % len(rot_eng)]] if rot_eng and k_plane(base + "/r0", n, c2) <= kcap_for(base) else []
+            work.append(("plane", "%s/r%d" % (base, q % 3), wid, n, c2, eng, True, q % 3 == 0, {"move": MOVES[(q + bi) % len(MOVES)]}))
+            wid += 1
+            if q % 4 == 0:
+                cs = [c if n == planes[k][0] else -c for m, c in planes if m == planes[k][0]]
+                work.append(("multi", "%s/r%d" % (base, q % 3), wid, n, cs, {"move": MOVES[(q + bi + 1) % len(MOVES)]}))
+                wid += 1
+        if base in ("cube", "hole", "two"):
+            pick = rs.choice(len(planes), size=min(len(planes), 150 if thorough else 24), replace=False).tolist()
+            for q, k in enumerate(pick):
+                n, c2 = planes[k]
+                if not positive_rep(n):
+                    n, c2 = tuple(-x for x in n), -c2
+                work.append(("plane", "%s/r%d" % (base, q % 3), wid, n, c2, [], True, q % 2 == 0, {"tex": True}))
+                wid += 1
+                if q % 3 == 0:
+                    p2 = simple[rs.randint(len(simple))]
+                    if p2[0] != n and p2[0] != tuple(-x for x in n) and max(abs(x) for x in n) == 1:
+                        work.append(("pair", "%s/r%d" % (base, q % 3), wid, (n, c2), p2, q % 2 == 1, {"tex": True}))
+                        wid += 1
     nocap["planes_not_enumerated_at_all"] = toofine
     return work, patterns, npairs, nocap
 
@@ -576,21 +893,41 @@ def main(argv):
     descs = [c.pop("desc") for c in cases]
     if len(cases) < 2000:
         raise MachineryError("too few cases")
-    # 16 TLC shards run side by side: bound each JVM's heap and the number of records it holds at once
-    os.environ.setdefault("JAVA_TOOL_OPTIONS", "-Xmx2g")
-    rejects, states, wall = {}, 0, 0.0
-    for lo in range(0, len(cases), ROUND):
-        r, st, w = tlc.validate_batches("c11", "Section", cases[lo:lo + ROUND], CFG, timeout=3000)
-        rejects.update(r)
-        states += st
-        wall += w
-    bykind, byapi, byengine, ks = {}, {}, {}, {}
+    bykind, byapi, byengine, ks, byseed, bystyle, bymove = {}, {}, {}, {}, {}, {}, {}
     nonempty_sections = nonempty_halves = empty_halves = cut_slices = 0
+    fam = {"capm_both_planes_cut_the_seed": 0, "capm_both_pieces_nonempty": 0, "pair_subset_cutting": 0, "moved_cutting": 0,
+           "textured_cutting": 0, "extra_seed_cutting": 0, "section_paths_cutting": 0, "process_true": 0,
+           "return_faces_false": 0, "heights_with_duplicate": 0}
     for c, d in zip(cases, descs):
-        key = c["kind"] + ("_pair" if len(c["planes"]) > 1 else "") + ("_subset" if len(c["sub"]) < len(c["F"]) else "")
+        key = c["kind"] + ("_pair" if len(c["planes"]) > 1 and c["kind"] != "capm" else "") + \
+            ("_subset" if len(c["sub"]) < len(c["F"]) else "")
         bykind[key] = bykind.get(key, 0) + 1
         byapi[d["api"]] = byapi.get(d["api"], 0) + 1
         ks[c["K"]] = ks.get(c["K"], 0) + 1
+        base = d["seed"].split("/")[0]
+        byseed[base] = byseed.get(base, 0) + 1
+        bystyle[d["style"]] = bystyle.get(d["style"], 0) + 1
+        # does every plane of the record cut the seed (a fact about the input: a family must not look empty because
+        # the implementation raised or returned nothing)
+        produced = all(min(sd) < 0 < max(sd) for sd in
+                       ([2 * sum(a * b for a, b in zip(pl["n"], v)) - pl["c2"] for v in c["V"]] for pl in c["planes"]))
+        if "scale" in d:
+            mk = "x%g %+g %+g %+g" % ((d["scale"],) + tuple(d["translation"]))
+            bymove[mk] = bymove.get(mk, 0) + 1
+            fam["moved_cutting"] += produced
+        fam["textured_cutting"] += bool(d.get("textured")) and produced
+        fam["extra_seed_cutting"] += base in EXTRA_ORDER and produced
+        fam["process_true"] += bool(d.get("process"))
+        fam["return_faces_false"] += d.get("return_faces") is False and produced
+        fam["heights_with_duplicate"] += bool(d.get("height_given_twice")) and produced
+        if c["kind"] == "section" and c["haspath"] and produced:
+            fam["section_paths_cutting"] += 1
+        if c["kind"] == "capm":
+            byengine[d["engine"] + " (two planes)"] = byengine.get(d["engine"] + " (two planes)", 0) + 1
+            fam["capm_both_planes_cut_the_seed"] += produced
+            fam["capm_both_pieces_nonempty"] += all(len(h["f"]) for h in (c["pos"], c["neg"]))
+        if key == "slice_pair_subset" and produced:
+            fam["pair_subset_cutting"] += 1
         if c["kind"] == "cap":
             byengine[d["engine"]] = byengine.get(d["engine"], 0) + 1
             for h in (c["pos"], c["neg"]):
@@ -605,7 +942,25 @@ def main(argv):
     if not (nonempty_sections > 500 and cut_slices > 300 and (nonempty_halves > 300 or not engines)):
         raise MachineryError("enumeration nearly empty: %d sections, %d cut slices, %d halves"
                              % (nonempty_sections, cut_slices, nonempty_halves))
+    # the audit families, counted on the inputs
+    need = {"capm_both_planes_cut_the_seed": 150 if engines else 0, "pair_subset_cutting": 40, "moved_cutting": 300, "textured_cutting": 60,
+            "extra_seed_cutting": 500, "section_paths_cutting": 500, "process_true": 200,
+            "return_faces_false": 200, "heights_with_duplicate": 100}
+    low = {k: (fam[k], v) for k, v in need.items() if fam[k] < v}
+    if low or len(bystyle) < 4 or len(bymove) < len(MOVES) or any(byseed.get(b, 0) < 40 for b in BASE_ORDER + EXTRA_ORDER) \
+            or (engines and byengine.get("default", 0) < 100):
+        raise MachineryError("a record family came out nearly empty: %s styles=%s moves=%s seeds=%s engines=%s"
+                             % (low, bystyle, bymove, byseed, byengine))
+    # 16 TLC shards run side by side: bound each JVM's heap and the number of records it holds at once
+    os.environ.setdefault("JAVA_TOOL_OPTIONS", "-Xmx2g")
+    rejects, states, wall = {}, 0, 0.0
+    for lo in range(0, len(cases), ROUND):
+        r, st, w = tlc.validate_batches("c11", "Section", cases[lo:lo + ROUND], CFG, timeout=3000)
+        rejects.update(r)
+        states += st
+        wall += w
     notes = {}
+    general_cache = {}
     for cid, clause in sorted(rejects.items()):
         c, d = cases[cid], descs[cid]
         if clause.startswith("MODEL_LIMIT"):
@@ -626,6 +981,19 @@ def main(argv):
             pl = c["planes"][0]
             if any(2 * sum(a * b for a, b in zip(pl["n"], v)) == pl["c2"] for v in c["V"]):
                 dev = "CapOfSectionThroughVertexNonConvex"
+        if c["kind"] == "capm" and d["seed"].split("/")[0] in NONCONVEX and \
+                (clause == "capped_pair_volumes_do_not_add_up_pinched" or clause.startswith("raised_")):
+            # the same finding one cut later: a vertex of the solid on p1, or a vertex of the capped half of p1
+            # (a kept vertex or a crossing point) on p2, pinches the polygon that is capped
+            key = (d["seed"].split("/")[0],) + tuple((tuple(pl["n"]), pl["c2"]) for pl in c["planes"])
+            if key not in general_cache:
+                general_cache[key] = pair_facts(key[0] + "/r0", key[1], key[2])[1]
+            if not general_cache[key]:
+                dev = "CapOfSectionThroughVertexNonConvex"
+        if c["kind"] == "capm" and clause == "quarter_of_convex_solid_not_watertight_slit":
+            # p2 contains three collinear vertices of the cap of p1: a triangulation of that cap may contain a
+            # zero-area triangle lying in p2, which the second cut drops and no cap replaces
+            dev = "CapSlitThroughCollinearCapVertices"
         V.violation(f"{c['kind']}:{clause}", detail, dev)
 
     def sample(k):
@@ -634,15 +1002,19 @@ def main(argv):
         if c["kind"] == "section":
             s["segments"] = c["segs"][:3]
         else:
+            if len(c["sub"]) < len(c["F"]):
+                s["subset"] = c["sub"]
             s["positive_faces"] = len(c["pos"]["f"])
             s["negative_faces"] = len(c["neg"]["f"])
         return s
     cov = {"states": states, "transitions": states, "traces_validated_against_impl": len(cases),
            "mesh_plane_pairs": npairs, "work_items": len(work),
-           "seeds": {k: {"vertices": len(SEEDS[k + "/r0"][0]), "faces": len(SEEDS[k + "/r0"][1])} for k in BASE_ORDER},
+           "seeds": {k: {"vertices": len(SEEDS[k + "/r0"][0]), "faces": len(SEEDS[k + "/r0"][1])} for k in BASE_ORDER + EXTRA_ORDER},
            "presentations_per_seed": 3,
            "normals": len(normals_all()), "extra_tilted_normals_for_uhole": [list(n) for n in TILTED], "triangle_sign_patterns": len(patterns),
            "records_per_kind": bykind, "records_per_api": byapi, "capped_records_per_engine": byengine,
+           "records_per_seed": byseed, "records_per_call_style": bystyle, "records_per_move": bymove,
+           "audit_families": fam,
            "planes_not_capped_grid_too_fine": nocap, "plane_pairs_not_judged_grid_too_fine": skipped_pairs,
            "engines_used": engines, "engines_skipped_not_importable": skipped,
            "sections_with_segments": nonempty_sections, "slices_with_faces_on_both_sides_or_pairs": cut_slices,
@@ -652,8 +1024,14 @@ def main(argv):
            "observations_outside_the_property": notes, "tlc_wall_s": round(wall, 1),
            "samples": [sample(len(cases) // 5), sample(len(cases) // 2), sample(len(cases) - 1)]}
     return V.finish("model_checking", cov, assumptions=[
-        "lattice meshes with coordinates in 0..3; integer normals; plane offsets on the lattice and half lattice: "
-        "every vertex is exactly on the plane or at least 1/(2|n|) away, so tol.merge never decides a case",
+        "lattice meshes with coordinates in 0..5; integer normals; plane offsets on the lattice and half lattice: "
+        "every vertex is exactly on the plane or at least 1/(2|n|) away, so tol.merge never decides a case (the scaled "
+        "copies keep a margin of 1e-4 at scale 2^-6)",
+        "scaled / translated copies use power-of-two scales and integer translations (exact in doubles); the harness maps "
+        "results back with the exact inverse and TLC judges them against the lattice mesh",
+        "capped slicing by two planes: the two pieces must add up to the exact volume of the capped half of the first "
+        "plane for convex seeds and for pairs in general position (no vertex on p1, no vertex of that half on p2); "
+        "results needing a grid finer than 1/%d are not judged (counted); texture coordinates are not judged" % KCAP,
         "returned coordinates are rationals with denominator <= %d (snap residual <= 1e-9)" % DMAX,
         "watertightness demanded of non-empty halves of convex seeds only; isolated touching points, sections with an "
         "edge in the plane (beyond soundness), the owner of an in-plane face and unselected faces are unconstrained",
